@@ -256,7 +256,10 @@ def conform(iname, mname, rname, bc, idx, dtmode, tab, res=None):
     f0 = space.field.fdata(model, m, data, t=0.25)
     with np.errstate(all="ignore"):
         dtc = np.asarray(disc.calc_timestep(f0, 1.0), float)
-    if dtmode == "array":
+    if dtmode == "array0":
+        dt = 0.4 * dtc
+        dt[0] = 0.0              # a frozen cell among advancing ones: the step is still the RK step with that array
+    elif dtmode == "array":
         dt = 0.4 * dtc
     elif ":" in dtmode:
         # the same scalar step written as a numpy scalar, a 0-d array or a one-element array
@@ -390,7 +393,7 @@ def shard_conf(arg):
     tab = extract(cls)
     n = 3
     for idx in itertools.product(range(4), repeat=n):
-        for dtmode in ("0.1", "0.5", "array") + ((("np64:0.3", "0d:0.3", "1el:0.3")[sum(idx) % 3],) if len(set(idx)) > 1 else ()):
+        for dtmode in ("0.1", "0.5", "array") + (("array0",) if sum(idx) % 2 else ()) + ((("np64:0.3", "0d:0.3", "1el:0.3")[sum(idx) % 3],) if len(set(idx)) > 1 else ()):
             res.evals += 1
             if len(set(idx)) > 1:
                 res.nontrivial += 1
